@@ -95,6 +95,21 @@ impl<'a, 'b, 'ast> TypeGeneralizer<'a, 'b, 'ast> {
         self.tc.environment.skolem_variables.exit_scope();
     }
 
+    /// Makes the names generated for generalized variables avoid the names bound by `forall`
+    /// inside `typ`. Needed when `typ` is not (part of) the type the generalizer was created with
+    /// as a generated name could otherwise be captured by such a `forall`.
+    pub(crate) fn avoid_forall_names_in(&mut self, typ: &RcType) {
+        let Self {
+            tc,
+            variable_generator,
+            top_type,
+            ..
+        } = self;
+        variable_generator
+            .get_or_insert_with(|| TypeVariableGenerator::new(&tc.subs, top_type))
+            .gather_foralls(&tc.subs, typ);
+    }
+
     pub(crate) fn generalize_type_top(&mut self, typ: &mut RcType) {
         self.tc.environment.skolem_variables.enter_scope();
 
@@ -237,7 +252,7 @@ struct TypeVariableGenerator {
 }
 
 impl TypeVariableGenerator {
-    fn new(subs: &Substitution<RcType>, typ: &RcType) -> TypeVariableGenerator {
+    fn gather_foralls(&mut self, subs: &Substitution<RcType>, typ: &RcType) {
         fn gather_foralls(map: &mut FnvSet<Symbol>, subs: &Substitution<RcType>, typ: &RcType) {
             if !typ
                 .flags()
@@ -256,13 +271,17 @@ impl TypeVariableGenerator {
                 }),
             );
         }
-        let mut map = FnvSet::default();
-        gather_foralls(&mut map, subs, typ);
-        TypeVariableGenerator {
-            map,
+        gather_foralls(&mut self.map, subs, typ);
+    }
+
+    fn new(subs: &Substitution<RcType>, typ: &RcType) -> TypeVariableGenerator {
+        let mut generator = TypeVariableGenerator {
+            map: FnvSet::default(),
             name: String::new(),
             i: 0,
-        }
+        };
+        generator.gather_foralls(subs, typ);
+        generator
     }
     /// Generate a generic variable name which is not used in the current scope
     fn next_variable(&mut self, tc: &mut Typecheck) -> Symbol {
